@@ -87,7 +87,7 @@ class C16(Lab):
         "wait() that has not returned 10 s (real time) after the clock reached the alarm, with the notifier re-woken every 50 ms, is reported as a violation (it can only miss, never invent, a return)",
     )
     budgets = {"quick": 1000, "thorough": 30000}
-    time_budget = {"quick": 80, "thorough": 1500}
+    time_budget = {"quick": 240, "thorough": 3600}
 
     def setup(self):
         simenv.init()
